@@ -1,9 +1,10 @@
 // C11: one request per stdin line, one answer line each.
 //   G <hexpath>
 //        the REAL handle_get_file_contents on that file ->  OK <n> <size>:<more>:<crc32> ...   |  ERR <hexmsg>
-//   R <listed> <mtime_ns> <hexdestpath> <seed> <end F|X> <size>:<more>,... | -
+//   R <listed> <mtime_ns> <hexdestpath> <seed> <end F|X> <size>:<more>,... | -  [Z<a>-<b>,<a>-<b>...]
 //        the REAL sync() with a scripted source doer (a File root of `listed` bytes / `mtime_ns`, answering
-//        GetFileContent with exactly the given chunk sequence; byte i of the stream is fill(seed, i);
+//        GetFileContent with exactly the given chunk sequence; byte i of the stream is fill(seed, i), or 0 when
+//        i lies in one of the optional half-open zero ranges [a, b) (sparse / zero-padded contents);
 //        end X: the scripted doer hangs up after the last chunk) and the REAL doer as destination
 //        ->  <Ok|Panic|Err:size|Err:lost|Err:other:hex> <absent | len:crc32:(mtime_ns|now)>
 use std::io::BufRead;
@@ -33,7 +34,9 @@ fn get(path: &str) -> String {
     }
 }
 
-fn relay(listed: u64, mtime_ns: u64, dest: &str, seed: u64, hang_up: bool, chunks: Vec<(usize, bool)>) -> String {
+fn content(seed: u64, zeros: &[(u64, u64)], i: u64) -> u8 { if zeros.iter().any(|(a, b)| i >= *a && i < *b) { 0 } else { fill(seed, i) } }
+
+fn relay(listed: u64, mtime_ns: u64, dest: &str, seed: u64, hang_up: bool, chunks: Vec<(usize, bool)>, zeros: Vec<(u64, u64)>) -> String {
     let mtime = std::time::UNIX_EPOCH + std::time::Duration::from_nanos(mtime_ns);
     let mut src = crate::boss_launch::verif_hooks::comms_with_doer("scripted src", move |rx, tx| {
         loop {
@@ -45,7 +48,7 @@ fn relay(listed: u64, mtime_ns: u64, dest: &str, seed: u64, hang_up: bool, chunk
                 Ok(Command::GetFileContent { .. }) => {
                     let mut off = 0u64;
                     for (sz, more) in chunks.iter() {
-                        let data: Vec<u8> = (0..*sz as u64).map(|i| fill(seed, off + i)).collect();
+                        let data: Vec<u8> = (0..*sz as u64).map(|i| content(seed, &zeros, off + i)).collect();
                         off += *sz as u64;
                         if tx.send(Response::FileContent { data, more_to_follow: *more }).is_err() { return Ok(()); }
                     }
@@ -69,6 +72,19 @@ fn relay(listed: u64, mtime_ns: u64, dest: &str, seed: u64, hang_up: bool, chunk
     // a panic inside sync() (e.g. the progress accounting assertion) is reported as "Panic", not as a harness crash
     let r = std::panic::catch_unwind(std::panic::AssertUnwindSafe(|| crate::boss_sync::sync(&spec, false, &pb, false, false, &mut src, &mut dst)));
     src.shutdown();
+    // Barrier: wait until the real doer has executed every command sent to it.  Comms::shutdown drops the response
+    // receiver before joining the doer, and a doer that then fails to echo a queued progress Marker stops without
+    // executing the commands behind it - after a failed sync the destination state would depend on thread timing.
+    let barrier = crate::boss_doer_interface::ProgressMarker { completed_work: u64::MAX, phase: crate::boss_doer_interface::ProgressPhase::Done };
+    if dst.send_command(Command::Marker(barrier)).is_ok() {
+        loop {
+            match dst.receive_response() {
+                Ok(Response::Marker(m)) if m.completed_work == u64::MAX => break,
+                Ok(_) => {}
+                Err(_) => break,
+            }
+        }
+    }
     dst.shutdown();   // joins the real doer: every command sent before has been executed
     let res = match r {
         Err(_) => "Panic".to_string(),
@@ -99,7 +115,10 @@ pub fn run(_args: &[String]) -> i32 {
             "R" => {
                 let chunks: Vec<(usize, bool)> = if t[6] == "-" { vec![] } else {
                     t[6].split(',').map(|c| { let mut p = c.split(':'); (p.next().unwrap().parse().unwrap(), p.next().unwrap() == "1") }).collect() };
-                println!("{}", relay(t[1].parse().unwrap(), t[2].parse().unwrap(), &unhex(t[3]), t[4].parse().unwrap(), t[5] == "X", chunks));
+                let zeros: Vec<(u64, u64)> = match t.get(7) {
+                    Some(z) if z.starts_with('Z') => z[1..].split(',').map(|r| { let mut p = r.split('-'); (p.next().unwrap().parse().unwrap(), p.next().unwrap().parse().unwrap()) }).collect(),
+                    _ => vec![] };
+                println!("{}", relay(t[1].parse().unwrap(), t[2].parse().unwrap(), &unhex(t[3]), t[4].parse().unwrap(), t[5] == "X", chunks, zeros));
             }
             _ => println!("BADREQ"),
         }
